@@ -1912,6 +1912,10 @@ func (ce *callEngine) callNativeFunc(ctx context.Context, m *wasm.ModuleInstance
 			offset := ce.popMemoryOffset(op)
 			switch op.B1 {
 			case v128LoadType128:
+				// offset+8 below must not wrap around: on a 4 GiB memory it would read the upper half from address 0.
+				if uint64(offset)+8 > math.MaxUint32 {
+					panic(wasmruntime.ErrRuntimeOutOfBoundsMemoryAccess)
+				}
 				lo, ok := memoryInst.ReadUint64Le(offset)
 				if !ok {
 					panic(wasmruntime.ErrRuntimeOutOfBoundsMemoryAccess)
